@@ -54,7 +54,7 @@ def run_shard(shard, ctx):
                      "gzip-member-boundary-in-header", "payload-is-tar-512", "payload-is-tar-4096", "payload-is-vmtar",
                      "payload-is-tar-gz", "tar-with-leftover-blocks", "vmtar-with-leftover-blocks",
                      "pax-x-path", "pax-x-size", "pax-X-path", "pax-X-size", "pax-g-comment", "pax-x-before-ustar",
-                     "pax-x-before-dir-after-file"):
+                     "pax-x-before-dir-after-file", "links-visor", "links-ustar", "links-mixed"):
             run_case({"special": what}, ctx)
         return
     if shard.get("high"):
@@ -143,6 +143,48 @@ def _case_special(case, ctx):
                     byname = (t.extractfile("d/same").read(), t.extractfile(t.getmember("d/same")).read())
                     if byname != (members[3][2], members[3][2]):
                         got = got + [("by-name(d/same)", False, byname[0][:10])]
+            elif what.startswith("links-"):
+                # symbolic and hard links next to the files they name: listed with their type and link name; extractfile()
+                # of a link yields the bytes of the member it points to (as the standard reader does)
+                vis = what != "links-ustar"
+                mixed = what == "links-mixed"
+                body, other = b"T" * 700 + b"!", b"O" * 513
+                heads = bytearray()
+                data0 = 8192
+                if vis:
+                    heads += B.hdr("etc/target", len(body), offset_data=data0)
+                else:
+                    heads += B.hdr("etc/target", len(body), visor=False) + B.pad512(body)
+                lk = dict(visor=vis and not mixed)
+
+                def link(name, typ, to):
+                    h = bytearray(B.hdr(name, 0, typ=typ, **lk))
+                    h[157:157 + len(to)] = to.encode()
+                    h[148:156] = b" " * 8
+                    h[148:156] = b"%06o\0 " % sum(h)
+                    return bytes(h)
+
+                heads += link("etc/hard", b"1", "etc/target") + link("etc/sym", b"2", "target") + link("etc/dangling", b"2", "nowhere")
+                if vis:
+                    heads += B.hdr("etc/other", len(other), offset_data=data0 + 4096)
+                else:
+                    heads += B.hdr("etc/other", len(other), visor=False) + B.pad512(other)
+                heads += b"\0" * 1024
+                img = bytes(heads)
+                if vis:
+                    img = img.ljust(data0, b"\0") + body.ljust(4096, b"\xEE") + other
+                t = vmtar.open(fileobj=io.BytesIO(img))
+                got = []
+                for m in t.getmembers():
+                    kind = "sym" if m.issym() else "hard" if m.islnk() else "file" if m.isreg() else "?"
+                    try:
+                        f = t.extractfile(m)
+                        data = f.read() if f is not None else None
+                    except KeyError:
+                        data = "KeyError"
+                    got.append((m.name, kind, m.linkname, data))
+                exp = [("etc/target", "file", "", body), ("etc/hard", "hard", "etc/target", body), ("etc/sym", "sym", "target", body),
+                       ("etc/dangling", "sym", "nowhere", "KeyError"), ("etc/other", "file", "", other)]
             elif what.startswith("pax-"):
                 # pax extended headers ('x', the Solaris spelling 'X', global 'g') in front of visor and ustar members; a size
                 # record makes the reader recompute where the next header lies
